@@ -185,6 +185,7 @@ def _case(args):
                                  'sound': (not lang) and set(outs[0]) <= set(outs[1]),
                                  'unique': (not lang) and len(outs[1]) == 1})
     rec['f24_region'] = empty_alt_region(rules)
+    rec['f29_region'] = anon_named_region(rules)
     return rec
 
 
@@ -198,6 +199,23 @@ def opnull(e):
     if k == 'plus': return opnull(e[1])
     if k == 'rep': return e[2] == 0 or opnull(e[1])
     raise ValueError(k)
+
+
+def anon_named_region(rules):
+    """region of finding F29: one rule mentions a terminal both as an anonymous literal and by name (alternatives that differ only in that are merged)"""
+    by_pattern = {v: k for k, v in TERMS.items()}
+    def syms(e, out):
+        if e[0] in ('t', 'lit', 'nt'): out.add((e[0], e[1]))
+        elif e[0] in ('seq', 'alt'):
+            for x in e[1]: syms(x, out)
+        else: syms(e[1], out)
+        return out
+    for n, mod, alts in rules:
+        got = set()
+        for e, a in alts: syms(e, got)
+        if any(k == 'lit' and v in by_pattern and ('t', by_pattern[v]) in got for k, v in got):
+            return True
+    return False
 
 
 def empty_alt_region(rules):
@@ -232,8 +250,8 @@ def check(ctx, res, salt, n_quick, n_thorough, big=False, label='EBNF', exact=Fa
         for d in rec['diffs']:
             if not exact and d['sound'] and not d['unique']:
                 res.count('ebnf_fewer_trees_than_desugared_(completeness_is_C04)'); continue
-            if exact and d['sound'] and rec['f24_region']:
-                res.count('ebnf_missing_derivation_in_region_F24'); continue
+            if exact and d['sound'] and (rec['f24_region'] or rec['f29_region']):
+                res.count('ebnf_missing_derivation_in_region_F24_F29'); continue
             res.violation('the %s grammar and its hand-desugared plain-BNF form (explicit inlined helper rules) disagree on an input: language or shaped trees differ' % label,
                           {'ebnf': rec['ebnf'], 'desugared': rec['desugared'], 'keep_all_tokens': rec['keep_all_tokens'], 'detail': d})
 
